@@ -499,7 +499,7 @@ def run(tier, seed):
     run_parallel(c, 'bounded.c05', 'check_line', gen_conventions(ATOMS_FULL, keys, variants, quick), chunk=3000)
     out.append(c.done())
 
-    patoms = ['0', '10', '-.5', '10p', '#fc0', '#0b.5'] if quick else ['0', '10', '1.', '-.5', '10p', '-2e', '#fc0', '#0b.5']
+    patoms = ['0', '10', '1.0', '-.5', '10p', '#fc0', '#0b.5'] if quick else ['0', '10', '1.', '2.0', '-.5', '10p', '-2e', '#fc0', '#0b.5']
     pkeys = ['m', 'lh']
     c = Clause('plus-pairs', 'B', 'all ordered pairs of properties joined by `+`', 'each side: key in %r, 1..2 values over %r, with/without `!`; '
                'syntax cycles through %r' % (pkeys, patoms, SYNTAXES),
